@@ -570,8 +570,22 @@ func (b *builder) method(s ad.Service, m ad.Method) {
 						}
 					})
 				}
-				if len(g.ResponseHeaders) > 0 || len(g.Trailers) > 0 {
+				if len(g.Message) > 0 {
+					Message(func() {
+						for _, a := range g.Message {
+							Attribute(a)
+						}
+					})
+				}
+				if len(g.ResponseHeaders) > 0 || len(g.Trailers) > 0 || len(g.ResponseMessage) > 0 {
 					Response(CodeOK, func() {
+						if len(g.ResponseMessage) > 0 {
+							Message(func() {
+								for _, a := range g.ResponseMessage {
+									Attribute(a)
+								}
+							})
+						}
 						if len(g.ResponseHeaders) > 0 {
 							Headers(func() {
 								for _, a := range g.ResponseHeaders {
